@@ -49,6 +49,9 @@ PREDS = {
     "false": lambda x: False,
     "a_eq_1": lambda x: x.get("a") == 1,
     "a_is_none": lambda x: x.get("a") is None,
+    # predicates that return a truthy / falsy VALUE rather than a bool (an int, a string, None)
+    "a_value": lambda x: x.get("a"),
+    "b_value": lambda x: x.get("b"),
 }
 
 
